@@ -6,6 +6,7 @@ import (
 	"math/rand"
 	"os"
 	"sync"
+	"sync/atomic"
 	"testing"
 	"time"
 
@@ -13,6 +14,7 @@ import (
 
 	commonmodel "github.com/prometheus/common/model"
 	"verif/harness/gen"
+	"verif/harness/model"
 
 	"verif/harness/oracle"
 	"verif/harness/scen"
@@ -121,5 +123,73 @@ func TestConcurrentSilencer(t *testing.T) {
 			sub.Count("quiescent_verdicts", int64(len(lsets)))
 			sub.Count("quiescent_muted", int64(muted))
 		}
+	})
+}
+
+// TestOverlappingEvaluations: many evaluations of ONE alert overlap with the creation of silences that
+// match it (an API read racing a group flush racing silence creation). Evaluations finish out of
+// order; whichever writes the silencer's per-alert cache last, the next evaluation after quiescence
+// must report every stored active matching silence.
+func TestOverlappingEvaluations(t *testing.T) {
+	run := vf.Cur()
+	sub := run.Sub("overlapping-evaluations", "one real store + silencer on the real clock; 8 goroutines evaluate the SAME label set in a tight loop (2000 evaluations each) while one goroutine creates 40 silences matching it and expires a few; afterwards (quiescent) the ids reported by Mutes must equal the brute-force ids, also after expiring all but the newest silence; run under the race detector in the race pass; non-trivial = every case; distinct by (seed)", 4)
+	n := run.N(16, 600)
+	vf.Parallel(t, n, 2, func(t *testing.T, i int) {
+		st, err := silh.NewStore(retention, nil, silence.Limits{})
+		if err != nil {
+			t.Fatal(err)
+		}
+		l := model.Labels{"alertname": "A", "sev": "crit", "team": fmt.Sprint(i)}
+		var wg sync.WaitGroup
+		var stop atomic.Bool
+		for g := 0; g < 8; g++ {
+			wg.Add(1)
+			go func() {
+				defer wg.Done()
+				iters := 2000
+				if vf.RaceEnabled {
+					iters = 300
+				}
+				for k := 0; k < iters && !stop.Load(); k++ {
+					st.Mutes(l)
+				}
+			}()
+		}
+		var ids []string
+		now := time.Now()
+		for k := 0; k < 40; k++ {
+			s := silh.NewSilence("", [][]model.Matcher{{{Name: "team", Op: "=", Value: fmt.Sprint(i)}}}, now.Add(-time.Second), now.Add(time.Hour), fmt.Sprintf("c%d", k))
+			if st.S.Set(context.Background(), s) == nil {
+				ids = append(ids, s.Id)
+			}
+			if k%7 == 3 {
+				st.S.Expire(context.Background(), ids[0])
+				ids = ids[1:]
+			}
+			for spin := 0; spin < 2000; spin++ {
+				_ = spin
+			}
+		}
+		wg.Wait()
+		stop.Store(true)
+		check := func(when string) bool {
+			want := silh.BruteForce(st.All(), l, time.Now())
+			m, got := st.Mutes(l)
+			sub.Count("verdicts_compared", 1)
+			if m != (len(want) > 0) || fmt.Sprint(got) != fmt.Sprint(want) {
+				sub.Violation("mute-verdict-differs-after-overlapping-evaluations", map[string]any{"seed": sub.Seed(i), "when": when, "silencer_ids": got, "brute_force_ids": want})
+				return false
+			}
+			return true
+		}
+		if !check("after the evaluations and creations finished") {
+			return
+		}
+		for _, id := range ids[:len(ids)-1] {
+			st.S.Expire(context.Background(), id)
+		}
+		time.Sleep(2 * time.Millisecond)
+		check("after all but the newest silence were expired")
+		sub.Case(vf.Digest(sub.Seed(i)), true)
 	})
 }
